@@ -68,7 +68,10 @@ def cli_confirm(src: str, ctx):
     for args in (["check", path], ["format", path], ["reftest-ast", path], ["check", "--json", path]):
         r = run_garden(args, cwd=ctx.scratch.root, timeout=20)
         if r.timed_out:
-            return "timeout", f"`garden {args[0]}` did not finish in 20 s (hook budget was 5 s; a front-end run takes ~10 ms)"
+            # a loaded machine can stretch a 10 ms run a long way: only a run that also exceeds 150 s is a hang
+            r = run_garden(args, cwd=ctx.scratch.root, timeout=150)
+            if r.timed_out:
+                return "timeout", f"`garden {args[0]}` did not finish in 150 s (a front-end run takes ~10 ms)"
         if r.crashed or r.rc not in (0, 1):
             return r.crash_sig(), f"`garden {' '.join(args[:-1])}` rc={r.rc}\n{r.err[-600:]}"
     return None
